@@ -207,7 +207,7 @@ struct GateState {
     realised: bool,
 }
 
-fn run_gated(tracer: &Tracer, rng: &mut StdRng, park_at_open: bool, tag: Value) {
+fn run_gated(tracer: &Tracer, rng: &mut StdRng, park_at_open: bool, long: bool, tag: Value) {
     tracer.reset_canon();
     let mut cfg = Cfg::default();
     cfg.threads = 1;
@@ -240,10 +240,12 @@ fn run_gated(tracer: &Tracer, rng: &mut StdRng, park_at_open: bool, tag: Value) 
                 g.parked = true;
                 cv.notify_all();
                 let t0 = std::time::Instant::now();
-                while !g.released && t0.elapsed() < Duration::from_secs(4) {
+                // long: the reader stays parked for longer than the collector is willing to wait for the
+                // meta lock (100 x 100 ms): the collector has to give up, not to go ahead
+                while !g.released && t0.elapsed() < Duration::from_secs(if long { 16 } else { 4 }) {
                     let (g2, _) = cv.wait_timeout(g, Duration::from_millis(50)).unwrap();
                     g = g2;
-                    if g.gc_lock_attempts >= 2 || g.main_done {
+                    if (!long && g.gc_lock_attempts >= 2) || g.main_done {
                         g.released = true;
                         g.realised = true;
                     }
@@ -300,12 +302,22 @@ fn run_gated(tracer: &Tracer, rng: &mut StdRng, park_at_open: bool, tag: Value) 
             g = g2;
         }
     }
-    // the writer: delete, commit, merge everything, collect
-    w.exec(&json!({"op":"del","pred":{"k":"id","id":1}}));
-    w.exec(&json!({"op":"add","id":n0 + 1,"t":"c","v":0}));
-    w.exec(&json!({"op":"commit"}));
-    w.exec(&json!({"op":"merge"}));
-    w.exec(&json!({"op":"gc"}));
+    // the writer: delete, commit, merge everything, collect (long: only the merge, whose own
+    // collection waits for the meta lock until it gives up)
+    if !long {
+        w.exec(&json!({"op":"del","pred":{"k":"id","id":1}}));
+        w.exec(&json!({"op":"add","id":n0 + 1,"t":"c","v":0}));
+        w.exec(&json!({"op":"commit"}));
+    }
+    if long {
+        // (no read-back here: the harness's own reader would queue behind the parked one for 10 s too)
+        let ids = w.index.searchable_segment_ids().unwrap_or_default();
+        let res = w.writer.as_mut().map(|wr| wr.merge(&ids).wait());
+        tracer.emit(json!({"ev":"merge","ok":matches!(res, Some(Ok(_))),"sids":[]}));
+    } else {
+        w.exec(&json!({"op":"merge"}));
+        w.exec(&json!({"op":"gc"}));
+    }
     {
         let (m, cv) = &*st;
         let mut g = m.lock().unwrap();
@@ -336,7 +348,10 @@ fn main() {
         }
         "gated" => {
             for r in 0..runs {
-                run_gated(&tracer, &mut rng, r % 2 == 1, json!({"seed":seed,"run":r,"gated":true}));
+                // one run in fifty (the second one) keeps the reader parked for longer than the
+                // collector waits for the meta lock
+                let long = r % 50 == 1;
+                run_gated(&tracer, &mut rng, r % 2 == 1, long, json!({"seed":seed,"run":r,"gated":true,"long":long}));
             }
         }
         _ => {
